@@ -4,12 +4,13 @@
 # Writes /tmp/mut/out/<id>/<v>/matrix_<tier>.txt (one line per property).
 id=$1; v=$2; tier=${3:-quick}
 wt=/tmp/mut/$id; out=/tmp/mut/out/$id/$v
-exec 9>/tmp/vm.lock; flock 9
-rm -rf /tmp/vm_src && mkdir -p /tmp/vm_src && git -C /verif archive HEAD | tar -x -C /tmp/vm_src
-rsync -a --delete --exclude .work --exclude lean/.lake --exclude replay /tmp/vm_src/ /tmp/vm/
-mkdir -p /tmp/vm/.work
+VM=${VM:-/tmp/vm}
+exec 9>$VM.lock; flock 9
+rm -rf ${VM}_src && mkdir -p ${VM}_src $VM && git -C /verif archive HEAD | tar -x -C ${VM}_src
+rsync -a --delete --exclude .work --exclude lean/.lake --exclude replay ${VM}_src/ $VM/
+mkdir -p $VM/.work
 cd $wt && git checkout -q -- . && git clean -fdq && git apply $out/patch.diff || { echo "cannot apply"; exit 2; }
-cd /tmp/vm
+cd $VM
 ids=$(python3 -c "import json;print(' '.join(c['property_id'] for c in json.load(open('MANIFEST.json'))['checks']))")
 export VERIF_REPO=$wt
 printf '%s\n' $ids | xargs -P ${PAR:-5} -I{} sh -c "timeout 3000 ./check {} --tier $tier > $out/check_{}_$tier.log 2>&1; echo {} rc=\$? \$(grep -m1 VIOLATION $out/check_{}_$tier.log) :: \$(tail -1 $out/check_{}_$tier.log | cut -c1-160)" | sort > $out/matrix_$tier.txt
